@@ -188,7 +188,17 @@ def gen_usage_session(rng):
         cap = rng.choice([0, 1, 3, 4, 19, 20, 24, 27, 28, 44, 52, 60, 64, 100, 2048, rng.randrange(0, 2049), rng.randrange(0, 120)])
         txid = S.rand_txid(rng, True).hex()
         k = rng.random()
-        if k < 0.6:
+        if k < 0.3:
+            fam = rng.choice(["4", "6", "7"])
+            ip = S.hx(S.rand_bytes(rng, 16 if fam == "6" else 4))
+            lines.append(rng.choice([
+                f"stun uturn {cap} {txid} 0 {rng.randrange(4)} {rng.choice([-1, 0, 1000])} {rng.choice([-1, 0, 600])} "
+                f"{rng.choice(['null', '6162'])} {rng.choice(['null', '70617373'])} {rng.randrange(5)}",
+                f"stun uturnref {cap} {txid} 0 {rng.choice([-1, 0, 600])} {rng.choice(['null', '6162'])} "
+                f"{rng.choice(['null', '70617373'])} {rng.randrange(5)}",
+                f"stun uturnperm {cap} {txid} {rng.choice(['null', '6162'])} {rng.choice(['null', '70617373'])} "
+                f"{rng.choice(['null', '7265616c6d'])} {rng.choice(['null', '6e6f6e6365'])} {fam} {rng.getrandbits(16)} {ip} {rng.randrange(5)}"]))
+        elif k < 0.6:
             lines.append(f"stun ucc {cap} {txid} {rng.choice(['null', '-', '6162', S.hx(S.rand_bytes(rng, rng.randrange(1, 40)))])} "
                          f"{rng.choice(['null', '-', '70617373'])} {rng.randrange(2)} {rng.randrange(2)} "
                          f"{rng.getrandbits(32)} {rng.getrandbits(64)} {rng.choice(['null', '-', '61', '6162636465'])} {rng.randrange(4)}")
@@ -283,7 +293,7 @@ def oracle(session, out):
         if op == "agent":
             compat, flags = int(w[2]), int(w[3], 16)
             continue
-        if op in ("ucc", "ubind", "ukeep"):
+        if op in ("ucc", "ubind", "ukeep", "uturn", "uturnref", "uturnperm"):
             ow = o.split()
             if ow[0] != "ret":
                 return f"{line[:80]}: unexpected output {o[:80]!r}"
@@ -493,6 +503,12 @@ def run(tier, seed):
                     ofail.append({"session": s, "impl_out": [x[:300] for x in o], "why": why})
                 for line, x in zip(s, o):
                     w = line.split()
+                    if w[1] in ("ucc", "ubind", "ukeep", "uturn", "uturnref", "uturnperm"):
+                        nev += 1
+                        opk[w[1]] = opk.get(w[1], 0) + 1
+                        r = x.split()[1] if x.startswith("ret") else x
+                        rk = f"{w[1]}:{'ok' if r != '0' else '0'}"
+                        rets[rk] = rets.get(rk, 0) + 1
                     if w[1] in ("app", "raw", "fin"):
                         nev += 1
                         k = w[1] if w[1] != "app" else "app-" + w[3]
